@@ -232,7 +232,8 @@ def exec : Stmt → St → List (List Act) → List (Flow × St × List (List Ac
 def paths (name : String) (body : Stmt) : List Path :=
   (exec (.scope name body) {} []).map (fun r =>
     let st := r.2.1
-    (if r.1 = .panic then st.tr else Item.fin (decide (st.last = .ok)) st.cls :: st.tr).reverse)
+    -- a panic unwinds to the caller of the entry point (the HTTP recoverer, the harness), which answers an error
+    (if r.1 = .panic then Item.fin false "panic" :: st.tr else Item.fin (decide (st.last = .ok)) st.cls :: st.tr).reverse)
 
 -- ------------------------------------------------------------------------------------------------ queries on paths
 
